@@ -28,7 +28,13 @@ def main : IO Unit := do
 
 def gen(rng):
   nb = rng.randint(1, 6)
-  parents = [None] + [rng.randint(0, i) for i in range(nb)]
+  # half of the models are (mostly) chains with a geom on every body: the parent/child filter rules depend on jointless bodies
+  # welded into a jointed ancestor two or more levels below the world, which random shallow trees rarely contain
+  chain = rng.random() < 0.5
+  if chain:
+    nb = max(nb, 3)
+  nojoint = rng.randint(3, nb) if chain else -1   # a jointless body at depth >= 3 of the chain
+  parents = [None] + [(i if (chain and rng.random() < 0.8) else rng.randint(0, i)) for i in range(nb)]
   children = {i: [] for i in range(nb + 1)}
   for b in range(1, nb + 1):
     children[parents[b]].append(b)
@@ -36,14 +42,14 @@ def gen(rng):
 
   def geoms():
     s = ""
-    for _ in range(rng.randint(0, 2)):
+    for _ in range(rng.randint(1 if chain else 0, 2)):
       s += f'<geom name="g{gcount[0]}" size="0.1" pos="{rng.random()} 0 0" contype="{rng.randint(0, 3)}" conaffinity="{rng.randint(0, 3)}"/>'
       gcount[0] += 1
     return s
 
   def body(b):
     s = f'<body name="b{b}" pos="0 0 {b}">'
-    if rng.random() < 0.6:
+    if b != nojoint and (rng.random() < 0.6 or (chain and b < nojoint)):
       s += '<joint type="hinge"/>'
     s += '<inertial pos="0 0 0" mass="1" diaginertia="1 1 1"/>' + geoms()
     for c in children[b]:
@@ -86,7 +92,7 @@ def run(seed=0, ncases=100):
   with tempfile.NamedTemporaryFile("w", suffix=".lean", delete=False) as f:
     f.write(RUNNER)
     runner = f.name
-  p = subprocess.Popen(["lake", "env", "lean", "--run", runner], cwd="/verif/lean", stdin=subprocess.PIPE,
+  p = subprocess.Popen(["lake", "env", "lean", "--run", runner], cwd=os.path.join(os.path.dirname(os.path.abspath(__file__)), "..", "..", "lean"), stdin=subprocess.PIPE,
                        stdout=subprocess.PIPE, text=True)
   ok, bad, nself = 0, [], 0
   try:
